@@ -48,6 +48,9 @@ type Intf struct {
 	LocalUA  string // underlay addresses of the external link
 	RemoteUA string
 	BFD      bool
+	// ExplicitBFD: the topology says "BFD enabled" for this interface rather than leaving it to
+	// the router-wide default.
+	ExplicitBFD bool
 }
 
 type Router struct {
@@ -59,6 +62,7 @@ type Router struct {
 	Conn     *router.Connector
 	Proc     *router.VerifProcessor
 	Opener   *simOpener
+	SibBFD   bool // router-wide BFD switch (governs the sibling links)
 	// sibling link objects: link of this router towards sibling s, by pointer
 	linkToSibling map[router.Link]*Router
 }
@@ -112,7 +116,8 @@ type World struct {
 type Knobs struct {
 	MaxISD, MaxCore, MaxNonCore, MaxPeer, MaxRouters int
 	BFD                                              bool
-	ReuseLocal                                       bool
+	BFDMix                                           bool // BFD per link end and per router drawn (C15)
+	ReuseLocal                                      bool
 	RcvBuf, SndBuf                                   int
 	Batch                                            int
 	RandomMaxExp                                     bool // per-AS maximum hop expiry drawn from 0..255
@@ -276,6 +281,10 @@ func (w *World) addLink(a, b *AS, aType, bType LinkType) {
 	ib.LocalUA = fmt.Sprintf("172.17.%d.%d:%d", w.Links>>8, w.Links&255, 50002)
 	ia.RemoteUA, ib.RemoteUA = ib.LocalUA, ia.LocalUA
 	ia.BFD, ib.BFD = w.Knobs.BFD, w.Knobs.BFD
+	if w.Knobs.BFDMix {
+		// each end decides for itself whether it runs BFD on the link
+		ia.BFD, ib.BFD = !r.Chance("link.nobfd", 1, 4), !r.Chance("link.nobfd", 1, 4)
+	}
 	a.Intfs[ia.ID] = ia
 	b.Intfs[ib.ID] = ib
 	w.Links++
@@ -316,6 +325,9 @@ func (a *AS) BuildTopo() error {
 			}
 			if !in.BFD {
 				bi.BFD = &jsontopo.BFD{Disable: &dis}
+			} else if in.ExplicitBFD {
+				en := false
+				bi.BFD = &jsontopo.BFD{Disable: &en}
 			}
 			br.Interfaces[iface.ID(in.ID)] = bi
 		}
@@ -371,6 +383,12 @@ func (w *World) BuildRouters(a *AS) error {
 		cfg := rconfig.RouterConfig{ReceiveBufferSize: k.RcvBuf, SendBufferSize: k.SndBuf, NumProcessors: 1,
 			NumSlowPathProcessors: 1, BatchSize: k.Batch, BFD: rconfig.BFD{Disable: !k.BFD}}
 		cfg.BFD.DetectMult = 3
+		if k.BFDMix {
+			// the router-wide switch governs the sibling links (and external links that say nothing)
+			cfg.BFD.Disable = !rt.SibBFD
+			cfg.BFD.DesiredMinTxInterval.Duration = 200 * time.Millisecond
+			cfg.BFD.RequiredMinRxInterval.Duration = 200 * time.Millisecond
+		}
 		cfg.DispatchedPortStart, cfg.DispatchedPortEnd = a.OvStart, a.OvEnd
 		rt.Conn = router.NewConnector(cfg, env.Features{ExperimentalSCMPAuthentication: w.AuthSCMP})
 		rt.Opener = &simOpener{reuse: k.ReuseLocal}
@@ -404,6 +422,14 @@ func (w *World) BuildRouters(a *AS) error {
 // Build builds topologies and routers of all ASes.
 func (w *World) Build() {
 	for _, a := range w.ASes {
+		if w.Knobs.BFDMix {
+			for _, rt := range a.Routers {
+				rt.SibBFD = !w.R.Chance("router.nobfd", 1, 4)
+				for _, in := range rt.Intfs {
+					in.ExplicitBFD = in.BFD && (!rt.SibBFD || w.R.Chance("link.explicitbfd", 1, 2))
+				}
+			}
+		}
 		if err := a.BuildTopo(); err != nil {
 			panic(core.InfraError{Msg: "topology of " + a.IA.String() + ": " + err.Error()})
 		}
